@@ -148,6 +148,17 @@ def check(case, ctx):
                 ctx.fail('unmodified-not-unchanged', s, out, call=call)
             if plus and any(is_num(m.val) and m.val > 0 for m in vals) and '[+' not in out and '{+' not in out:
                 ctx.fail('include_plus-ignored', 'explicit plus on positive shifts', out, call=call)
+    # the same peptide given as one parsed object, rewritten twice with different options: each result equals the result
+    # for the string (the documentation recommends parsing once and reusing the annotation)
+    st, obj = lib.call(p.parse, s)
+    if st == 'ok':
+        for plus, prec in ((False, 3), (True, 6), (False, 3)):
+            a = lib.call(p.condense_to_mass_mods, s, plus, prec)
+            b = lib.call(p.condense_to_mass_mods, obj, plus, prec)
+            ctx.evals += 2
+            if a[0] != b[0] or (a[0] == 'ok' and a[1] != b[1]):
+                ctx.fail('reused-annotation-differs', a[1], b[1], call=['condense_to_mass_mods', s, plus, prec])
+                break
     ctx.outcome = s
 
 
